@@ -7,6 +7,7 @@ import (
 	"fmt"
 	"go/ast"
 	"go/types"
+	"sort"
 	"strings"
 )
 
@@ -304,6 +305,51 @@ func (fr *Frame) monitorEnv(st *State, mon *Contract, owner Val) *SpecEnv {
 		names[mon.Recv.Name] = owner
 	}
 	return &SpecEnv{x: fr.x, pkg: fr.x.eng.pkgs[mon.Pkg], names: names, st: st, old: st, bound: map[string]bool{}}
+}
+
+// guardedAccess: a field listed under a monitor's modifies may be read or written only while
+// the monitor's mutex is held by the unit (hold counter of the same owner > 0), or on an
+// object the unit allocated itself (not shared yet). Anything else is a data race with the
+// goroutines that do take the lock.
+func (fr *Frame) guardedAccess(st *State, n ast.Node, p Val, base types.Type, f *types.Var, what string) {
+	x := fr.x
+	if len(x.eng.monitors) == 0 {
+		return
+	}
+	if x.guardedBy == nil {
+		x.guardedBy = map[string]string{}
+		var mks []string
+		for mk := range x.eng.monitors {
+			mks = append(mks, mk)
+		}
+		sort.Strings(mks)
+		for _, mk := range mks {
+			mon := x.eng.monitors[mk]
+			if x.eng.pkgs[mon.Pkg] == nil {
+				continue
+			}
+			for _, m := range mon.Modifies {
+				if strings.HasPrefix(m, "map[") || strings.HasPrefix(m, "chan") || strings.HasPrefix(m, "lib:") || m == "*" {
+					continue
+				}
+				func() {
+					defer func() { recover() }()
+					for _, k := range x.placeKeys(x.eng.pkgs[mon.Pkg], m) {
+						x.guardedBy[k] = mk
+					}
+				}()
+			}
+		}
+	}
+	mk, ok := x.guardedBy[x.u.heapKeyForField(f, base)]
+	if !ok {
+		return
+	}
+	short := strings.TrimPrefix(mk, "mutex:")
+	x.u.regHeap(mk, "(Array Int Int)")
+	x.used("monitor " + short + ": guarded fields are accessed only while the mutex is held (or on objects the unit allocated itself)")
+	goal := fmt.Sprintf("(or (> (select %s %s) 0) (>= %s %s))", x.getHeap(st, mk), p.T, p.T, x.next0)
+	x.u.oblige("monitor:"+short+":guarded-access:"+what+":"+f.Name(), "monitor", what+" of "+f.Name()+" while "+short+" is held", fr.pos(n.Pos()), st.pc, goal)
 }
 
 func (fr *Frame) monitorRelease(st *State, c *ast.CallExpr, key string, owner Val, mon *Contract) {
